@@ -130,6 +130,9 @@ def _val(draw, var, cls, depth, model, names, miss):
             p2, k2 = draw(_shape(model[f"{child}.{c2}"], arg, miss))
             return ["count", ["op", "SelectMany", src, v2, ["site", ["var", v2], child, c2, p2, k2]]]
         p3, k3 = draw(_shape(model[f"{child}.val"], arg, miss))
+        if draw(st.booleans()):
+            # an element picked out of the typed sequence by an index - a literal, a negative one, an expression - is of the element class
+            return ["site", ["idx", src, draw(st.sampled_from(["0", "1", "-1", "-2", "1 - 1", "0 + 1"]))], child, "val", p3, k3]
         return ["site", ["first", src], child, "val", p3, k3]
     if c == 6:
         pos, kw = draw(_shape(model["fn"], arg, miss))
@@ -356,6 +359,8 @@ def render(ir, ns, mode, consts):
     if k == "op":
         _, op, src, p, body = ir
         return f"{_pr(R(src))}.{op}(lambda {p}: {R(body)})"
+    if k == "idx":
+        return f"{_pr(R(ir[1]))}[{ir[2]}]"
     if k == "first":
         return f"{_pr(R(ir[1]))}.First()"
     if k == "count":
